@@ -103,8 +103,12 @@ Definition valid_input (res1 res2 : Z) (data : list rsample) : bool :=
                        && match snd s with Some v => 0 <=? v | None => true end) data
   && strictly_inc (map fst data).
 
+(* every value read is the adjusted raw counter at the last raw sample at or before its timestamp *)
+Definition values_ok (d : list sample) (r : list sample) : bool :=
+  forallb (fun s => snd s =? adj_at d (fst s)) r.
+
 Definition reads_ok (d : list sample) (r : list sample) : bool :=
-  forallb (fun s => snd s =? adj_at d (fst s)) r && strictly_inc (map fst r).
+  values_ok d r && strictly_inc (map fst r).
 
 (* the whole increase is preserved: the last value read is the adjusted counter at the end *)
 Definition last_ok (d : list sample) (r : list sample) : bool :=
